@@ -533,6 +533,9 @@ func RunOneShot(kind, script string, timeoutS int) (string, error) {
 		return "", err
 	}
 	defer os.Remove(f.Name())
+	if kind == "cvc5" {
+		f.WriteString("(set-logic ALL)\n")
+	}
 	f.WriteString(script)
 	f.Close()
 	var cmd *exec.Cmd
